@@ -4,6 +4,7 @@ package main
 // (C03, C04, C05, C07, C08, C16).
 
 import (
+	"fmt"
 	"reflect"
 	"strings"
 
@@ -210,7 +211,7 @@ func (g *bindGen) insertExpr(p *stmtPlan) string {
 		var cols, vals, usedIn []string
 		inputs := 0
 		for i := 0; i < n; i++ {
-			cols = append(cols, r.pick([]string{"c1", "c2", "name", "id", "t.c3", "\"q c\""}))
+			cols = append(cols, r.pick([]string{"c1", "c2", "name", "id", "t.c3", "\"q c\"", "c٣", "t٢.x"}))
 			switch r.intn(4) {
 			case 0:
 				if len(usedIn) > 0 && r.chance(1, 3) {
@@ -221,6 +222,7 @@ func (g *bindGen) insertExpr(p *stmtPlan) string {
 					break
 				}
 				vals = append(vals, r.pick([]string{"'lit'", "1", "NULL", "f(1, 'a,b')", "(1+2)", "'it''s'", "/* c */ 2",
+					"'100% off'", "'%d %s %%'", "/* 50%d */ 1", "'%!v(MISSING)'", "a % 2",
 					"7 -- seven\n", "'x' -- k\r\n ", "1 ", "2\t", "3 /* three */ ", "now( )  "}))
 			case 1:
 				t := r.pick(goodMaps)
@@ -278,7 +280,7 @@ func (g *bindGen) outputExpr(p *stmtPlan) string {
 	case 5:
 		t := g.structName()
 		p.use(t, false)
-		return tbl + r.pick([]string{"col", "name", "count(*)", "max(a, b)"}) + " AS &" + t + "." + g.tagOf(t)
+		return tbl + r.pick([]string{"col", "name", "count(*)", "max(a, b)", "v٢", "f('50% off')"}) + " AS &" + t + "." + g.tagOf(t)
 	case 6:
 		// (a, b) AS &T.*  : columns must be tags of T
 		t := g.structName()
@@ -296,6 +298,14 @@ func (g *bindGen) outputExpr(p *stmtPlan) string {
 		if r.chance(1, 3) {
 			t = r.pick(goodMaps)
 			p.use(t, false)
+			if r.chance(1, 12) {
+				// very many output columns into one map: aliases with two and three digits
+				n := []int{63, 64, 65, 66, 127, 128, 129, 255, 256, 257}[r.intn(10)]
+				cols = cols[:0]
+				for i := 0; i < n; i++ {
+					cols = append(cols, fmt.Sprintf("c%d", i))
+				}
+			}
 		}
 		return "(" + strings.Join(cols, ", ") + ") AS (&" + t + ".*)"
 	case 7:
@@ -303,7 +313,7 @@ func (g *bindGen) outputExpr(p *stmtPlan) string {
 		n := 1 + r.intn(3)
 		var cols, tys []string
 		for i := 0; i < n; i++ {
-			cols = append(cols, tbl+r.pick([]string{"a", "b", "c", "name", "count(*)"}))
+			cols = append(cols, tbl+r.pick([]string{"a", "b", "c", "name", "count(*)", "v٢", "日٣"}))
 			if r.chance(1, 4) {
 				t := r.pick(goodMaps)
 				p.use(t, false)
@@ -365,6 +375,10 @@ func (g *bindGen) argFor(name string, allowBulk bool) any {
 			v.Elem().Set(m)
 		case reflect.Slice:
 			n := r.intn(4)
+			if r.chance(1, 60) {
+				// lengths around the powers of two (tables, packed keys and caches have such bounds)
+				n = []int{63, 64, 65, 255, 256, 257, 1023, 1024, 1025, 4095, 4096, 4097}[r.intn(12)]
+			}
 			s := reflect.MakeSlice(t, n, n)
 			for i := 0; i < n; i++ {
 				g.f.fill(s.Index(i), 0)
@@ -617,6 +631,28 @@ func (g *bindGen) next1() bindCase {
 				c.args = append(c.args, zoo2.M{"k1": 1, "name": 2, "id": 3})
 			case "IntSlice":
 				c.args = append(c.args, zoo2.IntSlice{5, 6})
+			}
+		}
+	}
+	// a named slice type (or a slice of a named pointer type) over the struct an insert takes, in place of
+	// the argument: not an argument the statement uses
+	if hasInsert && r.chance(1, 12) {
+		for i, a := range c.args {
+			switch x := a.(type) {
+			case Person:
+				c.args[i] = r.pick2(any(PersonSlice{x, x}), any(PersonPtrs{&x}), any([]PersonPtr{&x}))
+			case *Person:
+				if x != nil {
+					c.args[i] = r.pick2(any(PersonSlice{*x}), any(PersonPtrs{x, x}), any([]PersonPtr{x}))
+				}
+			case []Person:
+				c.args[i] = PersonSlice(x)
+			case []*Person:
+				c.args[i] = PersonPtrs(x)
+			case Address:
+				c.args[i] = AddressSlice{x, x}
+			case []Address:
+				c.args[i] = AddressSlice(x)
 			}
 		}
 	}
